@@ -2,6 +2,7 @@ package main
 
 import (
 	"fmt"
+	"os"
 	"go/constant"
 	"go/token"
 	"go/types"
@@ -12,7 +13,7 @@ import (
 )
 
 // maxVCLines caps the size of one function's VC (cap VC size from day one).
-const maxVCLines = 150000
+const maxVCLines = 600000
 
 const (
 	nkNormal = iota
@@ -122,7 +123,7 @@ func (in *inst) node(b *ssa.BasicBlock, iters map[*loopInfo]int, kind int, l *lo
 	if l != nil {
 		key += fmt.Sprintf("/L%d", l.ord)
 	}
-	if kind == nkInvStep && from != nil {
+	if from != nil {
 		key += fmt.Sprintf("/from%d", from.Index)
 	}
 	if n, ok := in.nodes[key]; ok {
@@ -184,7 +185,11 @@ func (in *inst) buildGraph() {
 						iters[l] = 0
 					}
 				}
-				t, _ := in.node(s, iters, kind, lp, n.blk)
+				from := n.blk
+				if kind == nkNormal && !smallReturnBlock(s) {
+					from = nil
+				}
+				t, _ := in.node(s, iters, kind, lp, from)
 				e := &vedge{from: n, to: t, succIdx: si}
 				n.succs = append(n.succs, e)
 				t.preds = append(t.preds, e)
@@ -373,6 +378,9 @@ func (in *inst) run(st *State) {
 			n.tag = fv.curTag
 		}
 		in.execNode(n, st)
+		if os.Getenv("TGVC_DEBUG") != "" && in.top {
+			fmt.Fprintf(os.Stderr, "node %d/%d block %d lines %d obls %d\n", n.order, len(in.order), n.blk.Index, len(fv.lines), len(fv.obls))
+		}
 		if len(fv.lines) > maxVCLines && !fv.unsupported {
 			fv.outOfSubset(fmt.Sprintf("verification condition exceeds %d lines (function too large to inline; needs callee contracts)", maxVCLines))
 		}
@@ -547,6 +555,10 @@ func (in *inst) execInstr(n *vnode, st *State, ins ssa.Instruction) {
 		fv.zeroInit(st, loc, x.Type().(*types.Pointer).Elem())
 		av := Val{K: KLoc, T: loc, Typ: x.Type()}
 		fv.assumePtrType("true", av)
+		if localOnly(x) {
+			// the cell never escapes this function: calls with unknown effects cannot reach it
+			fv.localRoots = append(fv.localRoots, loc)
+		}
 		in.setVal(n, x, av)
 	case *ssa.FieldAddr:
 		p := in.lookup(n, x.X)
@@ -576,6 +588,11 @@ func (in *inst) execInstr(n *vnode, st *State, ins ssa.Instruction) {
 		in.safety(n, st, "nil", not(eq(addr.T, "LNil")), x.Pos())
 		fv.store(st, addr.T, x.Val.Type(), v)
 		if fa, ok := x.Addr.(*ssa.FieldAddr); ok {
+			if fi := fv.eng.immutableOf(fa); fi != nil {
+				base := in.lookup(n, fa.X)
+				id := fmt.Sprintf("%s#site:%s.%s:immutable@%s", funcKey(fv.top), fi.Type, fi.Field, in.siteKey(x.Pos(), n))
+				fv.oblige(id, "site", fi.Clause.Props, st.reach, "(>= (root "+base.T+") "+fv.allocEntry+")", "the field is written only while its object is under construction (fresh)", x.Pos())
+			}
 			if fi, _ := fv.eng.fieldInvOf(fa); fi != nil && funcPkg(in.fn).Path() == fi.PkgPath {
 				ce := in.baseEnv(st)
 				ce.vars = map[string]Val{"v": v}
@@ -672,7 +689,17 @@ func (in *inst) execInstr(n *vnode, st *State, ins ssa.Instruction) {
 		for _, r := range x.Results {
 			vs = append(vs, in.lookup(n, r))
 		}
-		in.rets = append(in.rets, retInfo{st: st, vals: vs, node: n, pos: x.Pos()})
+		rpos := x.Pos()
+		if n.from != nil {
+			// duplicated return block: report the end of the path that leads here
+			for i := len(n.from.Instrs) - 1; i >= 0; i-- {
+				if p := n.from.Instrs[i].Pos(); p.IsValid() {
+					rpos = p
+					break
+				}
+			}
+		}
+		in.rets = append(in.rets, retInfo{st: st, vals: vs, node: n, pos: rpos})
 	case *ssa.Panic:
 		in.panicInstr(n, st, x)
 	default:
@@ -711,9 +738,10 @@ func (in *inst) indexAddr(n *vnode, st *State, x *ssa.IndexAddr) {
 		in.safety(n, st, "index", and("(bvsle #x0000000000000000 "+idx+")", "(bvslt "+idx+" (slen "+base.T+"))"), x.Pos())
 		ea := fv.def("ea", "Loc", lelem("(sarr "+base.T+")", "(bvadd (soff "+base.T+") "+idx+")"))
 		fv.elemLocs[ea] = true
+		fv.assumePtrType(st.reach, Val{K: KLoc, T: ea, Typ: x.Type()})
 		// every index the code uses is an instantiation point for assumed "forall i in .." clauses
 		if fv.boundDepth == 0 && !fv.hasSkolem(idx) {
-			fv.instantiateLazies(idx, bvSort(64))
+			fv.instantiateLazies2(idx, bvSort(64), canonType(t.Elem()))
 		}
 		in.setVal(n, x, Val{K: KLoc, T: ea, Typ: x.Type()})
 	case *types.Pointer:
@@ -1345,4 +1373,98 @@ func (in *inst) tableRow(n *vnode, st *State, ti *tableInfo, ia *ssa.IndexAddr, 
 	}
 	fv.note("constant table " + ti.name + " read from its source literal (never written outside init: checked)")
 	return row
+}
+
+// localOnly: the address of the allocation is used only to load / store
+// through it (directly or via field/element addresses), or is captured by
+// closures that are only deferred or called directly. Such a cell is not
+// reachable from any callee with unknown effects.
+func localOnly(a *ssa.Alloc) bool {
+	seen := map[ssa.Value]bool{}
+	var ok func(v ssa.Value) bool
+	ok = func(v ssa.Value) bool {
+		if seen[v] {
+			return true
+		}
+		seen[v] = true
+		refs := v.Referrers()
+		if refs == nil {
+			return false
+		}
+		for _, r := range *refs {
+			switch u := r.(type) {
+			case *ssa.DebugRef:
+			case *ssa.UnOp:
+				if u.Op != token.MUL {
+					return false
+				}
+			case *ssa.Store:
+				if u.Val == v {
+					return false
+				}
+			case *ssa.FieldAddr:
+				if !ok(u) {
+					return false
+				}
+			case *ssa.IndexAddr:
+				if !ok(u) {
+					return false
+				}
+			case *ssa.MakeClosure:
+				// the closure may only be deferred or called on the spot
+				crefs := u.Referrers()
+				if crefs == nil {
+					return false
+				}
+				for _, cr := range *crefs {
+					switch cu := cr.(type) {
+					case *ssa.Defer:
+						if cu.Call.Value != ssa.Value(u) {
+							return false
+						}
+					case *ssa.Call:
+						if cu.Call.Value != ssa.Value(u) {
+							return false
+						}
+					case *ssa.DebugRef:
+					default:
+						return false
+					}
+				}
+				// inside the closure the captured address must be used locally as well
+				fn := u.Fn.(*ssa.Function)
+				for i, b := range u.Bindings {
+					if b == v && i < len(fn.FreeVars) {
+						if !ok(fn.FreeVars[i]) {
+							return false
+						}
+					}
+				}
+			default:
+				return false
+			}
+		}
+		return true
+	}
+	return ok(a)
+}
+
+// smallReturnBlock: a block that only returns (after running defers) and is
+// the join of many paths is duplicated per predecessor, so postconditions are
+// checked per path instead of on one large merged state.
+func smallReturnBlock(b *ssa.BasicBlock) bool {
+	if len(b.Preds) < 3 || len(b.Instrs) == 0 || len(b.Instrs) > 8 {
+		return false
+	}
+	if _, ok := b.Instrs[len(b.Instrs)-1].(*ssa.Return); !ok {
+		return false
+	}
+	for _, ins := range b.Instrs {
+		switch ins.(type) {
+		case *ssa.Return, *ssa.RunDefers, *ssa.UnOp, *ssa.DebugRef, *ssa.Phi, *ssa.Store:
+		default:
+			return false
+		}
+	}
+	return true
 }
